@@ -51,14 +51,34 @@ pub struct CliOut {
     pub timed_out: bool,
 }
 
+thread_local! {
+    /// global options placed in front of the subcommand for every child started by this thread
+    /// (the verbosity flags: logging goes to a file and must change nothing that is observed)
+    static GLOBAL_OPTIONS: std::cell::RefCell<Vec<String>> = const { std::cell::RefCell::new(Vec::new()) };
+}
+
+/// sets the global options for the children of this thread (empty = none); returns the old ones
+pub fn set_global_options(v: Vec<String>) -> Vec<String> {
+    GLOBAL_OPTIONS.with(|g| std::mem::replace(&mut *g.borrow_mut(), v))
+}
+fn global_options() -> Vec<String> {
+    GLOBAL_OPTIONS.with(|g| g.borrow().clone())
+}
+/// the log file of the binary goes below the scratch area, not to the system's temporary directory
+fn log_dir() -> PathBuf {
+    let d = verif_root().join(".build/tmp/logs");
+    let _ = std::fs::create_dir_all(&d);
+    d
+}
+
 pub fn run_cli(args: &[String], cwd: Option<&Path>) -> CliOut {
     run_cli_input(args, cwd, None, Duration::from_secs(60))
 }
 
 pub fn run_cli_input(args: &[String], cwd: Option<&Path>, input: Option<&[u8]>, limit: Duration) -> CliOut {
     let mut cmd = Command::new(ironplcc());
-    cmd.args(args).stdin(if input.is_some() { Stdio::piped() } else { Stdio::null() }).stdout(Stdio::piped()).stderr(Stdio::piped());
-    cmd.env_remove("RUST_LOG").env("RUST_BACKTRACE", "0");
+    cmd.args(global_options()).args(args).stdin(if input.is_some() { Stdio::piped() } else { Stdio::null() }).stdout(Stdio::piped()).stderr(Stdio::piped());
+    cmd.env_remove("RUST_LOG").env("RUST_BACKTRACE", "0").env("TMPDIR", log_dir());
     if let Some(d) = cwd {
         cmd.current_dir(d);
     }
@@ -238,8 +258,8 @@ pub fn lsp_run_limit(messages: &[Value], limit_secs: u64) -> LspRun {
         input.extend(frame(m));
     }
     let mut cmd = Command::new(ironplcc());
-    cmd.args(["lsp", "--stdio"]).stdin(Stdio::piped()).stdout(Stdio::piped()).stderr(Stdio::piped());
-    cmd.env_remove("RUST_LOG").env("RUST_BACKTRACE", "0");
+    cmd.args(global_options()).args(["lsp", "--stdio"]).stdin(Stdio::piped()).stdout(Stdio::piped()).stderr(Stdio::piped());
+    cmd.env_remove("RUST_LOG").env("RUST_BACKTRACE", "0").env("TMPDIR", log_dir());
     let mut child = cmd.spawn().expect("spawn ironplcc lsp");
     let mut si = child.stdin.take().unwrap();
     let mut out = child.stdout.take().unwrap();
